@@ -43,10 +43,21 @@ def call(I, name, args, e):
         d = None
         want = norm_ty('<%s as core::convert::From<%s>>::from' % (ty, src))
         cands = [k for k, b_ in I.f.bodies.items() if b_.get('trait') == 'core::convert::From' and b_.get('name') == 'from' and norm_ty(b_.get('self_ty') or '') == ty]
+        def csrc_(k):
+            m_ = re.search(r'From<(.+)> for .+>::from$', norm_ty(k)) or re.search(r'From<(.+)>>::from$', norm_ty(k))
+            return m_.group(1) if m_ else ''
         for k in cands:
-            if norm_ty(k) == want: d = k
-        if d is None and len(cands) == 1: d = cands[0]
+            if norm_ty(k) == want or csrc_(k) == src: d = k
+        if d is None:
+            # the argument's static type may be a type parameter here: choose by the value's own type, never by default
+            vty = a0.path if isinstance(a0, (StructV, EnumV)) else None
+            hits = [k for k in cands if vty and csrc_(k).split('<')[0] == vty]
+            if len(hits) == 1: d = hits[0]
+            elif is_term(a0) and int_bits(ty):
+                # an integer value converted to an integer type through a type parameter: the std widening conversion
+                return a0
         if d is None and not cands: d = I.f.method('core::convert::From', ty, 'from')
+        if d is None and cands: return I.top('into %s -> %s: no matching From impl' % (src, ty), e)
         if d: return I.call_local(d, [args[0]], e)
         return I.top('into %s -> %s' % (src, ty), e)
     m = re.match(r'^zerocopy::(U16|U32|U64)::<O>::(get|set|new)$', n)
